@@ -839,8 +839,7 @@ class Builder:
             load = ICmd(instruction=GenericInstr.LOAD, operands=[reg, address_entry])
             return [load], reg
         elif isinstance(value, RegFuture):
-            assert value.reg is not None
-            return [], value.reg
+            return [], value._as_operand()
         elif isinstance(value, int):
             return [], value
         else:
